@@ -15,7 +15,7 @@ IntPayloads == {<<48>>, <<49>>, <<MINUS, 49>>, <<49, 48>>, <<MINUS, 49, 48>>, <<
 
 Leaves == {Str(p) : p \in Seqs(LineAlpha, MaxPayload)}
      \cup {Err(p) : p \in Seqs(LineAlpha, MaxPayload)}
-     \cup {Int(p) : p \in IntPayloads}
+     \cup {IntV(p) : p \in IntPayloads}
      \cup {Bulk(p) : p \in Seqs(BulkAlpha, MaxPayload)}
      \cup {Null}
 
@@ -23,7 +23,7 @@ Leaves == {Str(p) : p \in Seqs(LineAlpha, MaxPayload)}
 Flat == {Arr(e) : e \in Seqs(Leaves, MaxArity)}
 
 \* deeper nesting over a reduced leaf set
-Few  == {Bulk(<<97>>), Bulk(<<CR, LF>>), Null, Int(<<49>>), Str(<<>>)}
+Few  == {Bulk(<<97>>), Bulk(<<CR, LF>>), Null, IntV(<<49>>), Str(<<>>)}
 Lvl1 == {Arr(e) : e \in Seqs(Few, 2)}
 Lvl2 == {Arr(e) : e \in Seqs(Few \cup Lvl1, 2)}
 Lvl3 == IF Deep THEN {Arr(e) : e \in Seqs({Bulk(<<97>>), Arr(<<>>)} \cup {Arr(<<x>>) : x \in Lvl1}, 3)} ELSE {}
